@@ -103,6 +103,23 @@ def strategy_(g):
                     j = rnd.choice(cands)
                     vi["p"] = dict(case["edges"][j]["off"])
                     vshare.append(["offset", i, j])
+    # SE(3) vertex poses as they come from a hand-written .g2o file (the loader does not normalise vertex quaternions): a few
+    # significant digits only, or scaled slightly off unit norm - purity does not depend on the norm
+    case["denorm"] = False
+    if case["base"] == "se3" and g.choice([False, False, True]):
+        case["denorm"] = True
+        for v in case["verts"]:
+            if v["p"]["k"] == "se3" and rnd.random() < 0.7:
+                q = v["p"]["v"][3:]
+                if rnd.random() < 0.5:
+                    dg = rnd.choice([2, 3, 4, 5, 6])
+                    q2 = [round(x, dg) for x in q]
+                    if any(q2):
+                        q = q2
+                else:
+                    f = 1.0 + rnd.choice([1.0, -1.0]) * 10.0 ** rnd.uniform(-8, -1.5)
+                    q = [x * f for x in q]
+                v["p"]["v"][3:] = q
     # information matrices in various memory layouts (Fortran order, strided view): values are what matters
     for e in case["edges"]:
         e["layout"] = g.choice(["C", "C", "F", "strided"])
@@ -224,6 +241,8 @@ def _clone_graph(case, g):
 
 def check(case, ctx):
     GG.classify(case, ctx)
+    if case.get("denorm"):
+        ctx.event("se3-vertex-quaternions-not-exactly-unit")
     g = build_shared(case)
     model = snapshot(g)
     shared = bool(case["share"]) or bool(case.get("vshare"))
